@@ -211,7 +211,7 @@ class C13World(World):
             op["ctx"] = self._desc(streams, "ctx", rows=rows)
         if self.cfg["faulty"]:
             if fault.chance(0.15):
-                op["interrupt"] = fault.randint(1, 60)
+                op["interrupt"] = fault.randint(1, 60 * (10 if self.cfg.get("opcode") else 1))
             elif fault.chance(0.12):
                 op["reject"] = fault.pick(["shape", "domain", "ctxrows"])
         return op
@@ -297,7 +297,15 @@ class C13World(World):
         elif kind == "restart":
             self.save_bytes("ckpt", self.root.state_dict())
             fresh = zoo.build(self.cfg["spec"], int(op["seed"]))
-            fresh.obj.load_state_dict(self.load_bytes("ckpt"), strict=True)
+            try:
+                fresh.obj.load_state_dict(self.load_bytes("ckpt"), strict=True)
+            except Exception as ex:   # noqa: BLE001
+                # e.g. an ActNorm whose first training batch had a wrong feature count re-shaped its own
+                # parameters: whether a state dict reloads is C15's business (on valid histories), not C13's
+                self.probes["restart_skipped_checkpoint_does_not_reload"] += 1
+                log.add("restart_skipped", type(ex).__name__)
+                self._check_pool("after restart")
+                return
             if not self.root.training:
                 fresh.obj.eval()
             self.entry, self.root = fresh, fresh.obj
